@@ -240,6 +240,38 @@ FIXED += [
       "steps": [S(), S("v1", "t1"), {"out": "v2", "verb": "union", "in": "v0", "right": "v1", "distinct": True}], "result": "v2"}),
 ]
 
+FIXED += [
+    ("F37a-overload-null-ambiguity", "C13", "overload resolution with only null arguments",
+     "operators with several overloads raised AssertionError for NullType-only arguments",
+     {"op": "abs", "args": ["NullType"]}),
+    ("F37b-const-tyvar-param", "C13", "overload resolution with only null arguments",
+     "a parameter declared Const(S) accepted a column once S was bound (shift fill_value)",
+     {"op": "shift", "args": ["Int64", "const Int", "Int"]}),
+]
+
+FIXED += [
+    ("F38-repr-grouped-table", "C11", "printing a grouped table", "repr() of a grouped table printed 'export failed: TypeError'",
+     {"tables": [TG], "steps": [S(), st("v1", "group_by", "v0", cols=[{"c": "g"}])], "result": "v1", "validate": "check"}),
+]
+
+FIXED += [
+    ("F39-collect-grouped", "C16", "collect() of a grouped table", "group_by(..) >> collect() raised TypeError (UUID in expression)",
+     {"tables": [TG], "steps": [S(), st("v1", "group_by", "v0", cols=[{"c": "g"}]), st("v2", "collect", "v1", keep=True),
+                                st("v3", "summarize", "v2", items=[["s", F("sum", V("v0", "x"))]])],
+      "result": "v3", "pl_only": True, "kind": "collect", "origin": "v1", "rerooted": "v2", "probes": [], "c_probes": [],
+      "validate": "check"}),
+]
+
+FIXED += [
+    ("F40-transfer-hidden-columns", "C16", "transfer_col_references for a table with hidden columns",
+     "transfer_col_references(table with hidden columns, ref) raised KeyError",
+     {"tables": [TG], "steps": [S(), st("v1", "rematerialize", "v0"), st("v2", "select", "v1", cols=[{"c": "id"}, {"c": "g"}]),
+                                {"out": "v3", "verb": "transfer", "in": "v2", "ref": "v0"},
+                                st("v4", "mutate", "v3", items=[["z", F("mul", V("v0", "g"), L(10))]])],
+      "result": "v4", "pl_only": True, "kind": "transfer", "origin": "v2", "rerooted": "v3", "probes": [], "c_probes": [],
+      "validate": "check"}),
+]
+
 
 def main():
     log = subprocess.run(["git", "-C", "/repo", "log", "--format=%h %s"], capture_output=True, text=True).stdout.splitlines()
